@@ -79,6 +79,16 @@ def cmd_check(args: argparse.Namespace) -> int:
     print(f"[sigsim] property={prop} tier={tier} VERIF_SEED={seed} runs={n_runs} budget_s={budget}", flush=True)
     recs = core.run_batch(machine, tier, n_runs, budget, workers=args.workers)
     wall_batch = time.monotonic() - t0
+    # A run that timed out or died (e.g. the machine was heavily loaded) is re-executed alone, with a
+    # doubled timeout, before it is reported as a harness problem: it is deterministic, so nothing is lost.
+    for k, r in enumerate(recs):
+        if "harness" in r and r.get("index", -1) >= 0:
+            for _ in range(2):
+                st, payload = core.run_in_fork(core._one_run, (machine, r["index"], r["seed"], tier),
+                                               2 * getattr(machine, "RUN_TIMEOUT", 30.0))
+                if st == "ok":
+                    recs[k] = payload
+                    break
     return report(machine, prop, tier, seed, recs, t0, wall_batch, write=not args.no_evidence)
 
 
